@@ -149,29 +149,39 @@ func (s *backendStorageStatic) RemoveBackendsForHost(host string) {
 }
 
 func (s *backendStorageStatic) UpsertHost(host string, backends []*Backend) {
-	// Collect the entries to keep in a new slice: removing from s.backends[host]
-	// while ranging over it shifts the entries under the loop and lets the index
-	// run past the shortened slice.
+	// The entries of a host are kept in the order of the configuration (the
+	// first matching entry wins on lookup), exactly like on startup.
 	existingBackends := s.backends[host]
-	keptBackends := make([]*Backend, 0, len(existingBackends)+len(backends))
-	for _, existingBackend := range existingBackends {
-		found := false
-		index := 0
-		for _, newBackend := range backends {
-			if reflect.DeepEqual(existingBackend, newBackend) { // otherwise we could manually compare the struct members here
-				found = true
-				keptBackends = append(keptBackends, existingBackend)
-				backends = append(backends[:index], backends[index+1:]...)
-				break
-			} else if newBackend.id == existingBackend.id {
-				found = true
-				keptBackends = append(keptBackends, newBackend)
-				backends = append(backends[:index], backends[index+1:]...)
-				log.Printf("Backend %s updated for %s", newBackend.id, newBackend.url)
-				updateBackendStats(newBackend)
+	newBackends := make([]*Backend, 0, len(backends))
+	added := 0
+	for _, newBackend := range backends {
+		var existingBackend *Backend
+		for _, entry := range existingBackends {
+			if entry.id == newBackend.id {
+				existingBackend = entry
 				break
 			}
-			index++
+		}
+		if existingBackend == nil {
+			log.Printf("Backend %s added for %s", newBackend.id, newBackend.url)
+			updateBackendStats(newBackend)
+			added++
+		} else if reflect.DeepEqual(existingBackend, newBackend) { // otherwise we could manually compare the struct members here
+			newBackend = existingBackend
+		} else {
+			log.Printf("Backend %s updated for %s", newBackend.id, newBackend.url)
+			updateBackendStats(newBackend)
+		}
+		newBackends = append(newBackends, newBackend)
+	}
+
+	for _, existingBackend := range existingBackends {
+		found := false
+		for _, newBackend := range newBackends {
+			if newBackend.id == existingBackend.id {
+				found = true
+				break
+			}
 		}
 		if !found {
 			log.Printf("Backend %s removed for %s", existingBackend.id, existingBackend.url)
@@ -180,12 +190,8 @@ func (s *backendStorageStatic) UpsertHost(host string, backends []*Backend) {
 		}
 	}
 
-	s.backends[host] = append(keptBackends, backends...)
-	for _, added := range backends {
-		log.Printf("Backend %s added for %s", added.id, added.url)
-		updateBackendStats(added)
-	}
-	statsBackendsCurrent.Add(float64(len(backends)))
+	s.backends[host] = newBackends
+	statsBackendsCurrent.Add(float64(added))
 }
 
 func getConfiguredBackendIDs(backendIds string) (ids []string) {
